@@ -406,6 +406,36 @@ def r26(orig, rule):
     return 'for %s in %s.iter() {' % m.groups()
 
 
+def r18a(orig, rule):
+    # assert!(COND, "message" [, args]);  ->  assert!(COND);      (same panic condition; the message is dropped)
+    toks = texts(lex(orig)[0])
+    if toks[:3] != ['assert', '!', '('] or toks[-2:] != [')', ';']:
+        raise NoMatch('not an assert!(..);')
+    args, depth, cur = [], 0, []
+    for t in toks[3:-2]:
+        if t in '([{':
+            depth += 1
+        elif t in ')]}':
+            depth -= 1
+        if t == ',' and depth == 0:
+            args.append(' '.join(cur)); cur = []
+        else:
+            cur.append(t)
+    if cur:
+        args.append(' '.join(cur))
+    if len(args) < 2 or not args[1].startswith('"'):
+        raise NoMatch('no message argument')
+    return 'assert!(%s);' % args[0]
+
+
+def rty(orig, rule):
+    # let mut X = LITERAL;  ->  let mut X: T = LITERAL;     (type ascription only: rustc rejects it if the inferred type differs)
+    ty = rule.split()[1]
+    s = norm(orig)
+    m = _m(r'let (mut )?(%s) = ([0-9_]+) ;' % ID, s)
+    return 'let %s%s: %s = %s;' % (m.group(1) or '', m.group(2), ty, m.group(3))
+
+
 def r1b(orig, rule):
     # for (I, X) in E.iter().enumerate() {   ->  for I in 0..E.len() { let X = &E[I];      (X bound to a reference, as the iterator yields)
     s = norm(orig)
@@ -423,7 +453,7 @@ def r1t(orig, rule):
 
 
 GENERATORS = {
-    'R1b': r1b, 'R1t': r1t, 'R22': r22, 'R23': r23, 'R24': r24, 'R18m': r18m, 'RRET': rret, 'R26': r26,
+    'R1b': r1b, 'R1t': r1t, 'R22': r22, 'R23': r23, 'R24': r24, 'R18m': r18m, 'RRET': rret, 'R26': r26, 'R18a': r18a, 'RTY': rty,
     'RBW': rbw,
     'R4m': r4m,
     'R12m': r12m,
